@@ -1076,7 +1076,9 @@ impl DistanceFromLeaf {
                 return distance;
             }
             let children = element.children();
-            assert!(!children.is_empty());
+            if children.is_empty() {
+                return distance;        // not a leaf, but nothing below it (e.g., mprescripts)
+            }
             element = as_element( if use_left_side {children[0]} else {children[children.len()-1]} );
             distance += 1;
         }
